@@ -240,7 +240,7 @@ func (c qosCase) nonTrivial() bool {
 func TestPropQosEncoding(t *testing.T) {
 	e := newQosEnv(t)
 	defer e.close()
-	vstat.Checks(800, 16000)
+	vstat.Checks(2000, 30000)
 	rapid.Check(t, func(rt *rapid.T) {
 		c := genQos(rt)
 		runQos(rt, e, c)
